@@ -2218,6 +2218,24 @@ static bool parse_ignored(TokenContext &ctx, Chunk &pc)
 } // parse_ignored
 
 
+//! are there only blanks between the current position and the end of the line (or of the file)
+static bool only_blanks_to_end_of_line(TokenContext &ctx)
+{
+   size_t idx = 0;
+
+   while (  ctx.peek(idx) == ' '
+         || ctx.peek(idx) == '\t')
+   {
+      idx++;
+   }
+   size_t ch = ctx.peek(idx);
+
+   return(  ch == '\n'
+         || ch == '\r'
+         || ch == 0);
+}
+
+
 static bool parse_next(TokenContext &ctx, Chunk &pc, const Chunk *prev_pc)
 {
    if (!ctx.more())
@@ -2273,9 +2291,12 @@ static bool parse_next(TokenContext &ctx, Chunk &pc, const Chunk *prev_pc)
          size_t ch = ctx.peek();
 
          // Fix for issue #1752
-         // Ignoring extra spaces after ' \ ' for preproc body continuations
+         // Ignoring extra blanks between ' \ ' and the end of the line for
+         // preproc body continuations (not blanks inside the body: "a\ b")
          if (  last == '\\'             // 92
-            && ch == ' ')               // 32
+            && (  ch == ' '             // 32
+               || ch == '\t')
+            && only_blanks_to_end_of_line(ctx))
          {
             ctx.get();
             continue;
